@@ -1,17 +1,19 @@
 #!/bin/sh
 # usage: tools/seedconfirm.sh <seed worktree>   (expects <wt>/_seed/{patch.diff,build.sh,demo.c})
 # Confirms: tree builds with the patch, pinned tests pass, demo FAILS with the patch and PASSES without.
+# (no `git stash`: the stash is shared between all worktrees of a repository)
 wt=$1
 cd "$wt" || exit 2
 log="$wt/_seed/confirm.log"; : > "$log"
 run_demo() { (cd "$wt/_seed" && sh ./build.sh "$wt" >>"$log" 2>&1; ./demo >>"$log" 2>&1; echo $?); }
-git -C "$wt" diff --quiet -- matrixssl crypto core && { echo "no change applied in $wt"; }
+git -C "$wt" checkout -q -- core crypto matrixssl 2>/dev/null
+git -C "$wt" apply "$wt/_seed/patch.diff" || { echo "patch.diff does not apply to a clean checkout"; exit 1; }
 make libs tests >>"$log" 2>&1 || { echo "BUILD FAILED with patch"; exit 1; }
 t=0; for x in algorithmTest eccTest rsaTest hmacTest; do (cd crypto/test && ./$x >>"$log" 2>&1) || t=1; done
 with=$(run_demo)
-git -C "$wt" stash -q -- matrixssl crypto core
+git -C "$wt" checkout -q -- core crypto matrixssl
 make libs >>"$log" 2>&1
 without=$(run_demo)
-git -C "$wt" stash pop -q
+git -C "$wt" apply "$wt/_seed/patch.diff"
 make libs >>"$log" 2>&1
 echo "pinned_tests_rc=$t demo_with_patch_rc=$with demo_without_patch_rc=$without"
